@@ -195,14 +195,14 @@ pub fn minimise(t: &Trace, prop: &str, check: &str, budget: usize) -> (Trace, us
         if used >= budget {
             break;
         }
-        if let Event::Build { node, slot, calls } = events[i].clone() {
+        if let Event::Build { node, slot, calls, reuse } = events[i].clone() {
             let mut calls = calls;
             let mut j = 0;
             while j < calls.len() && used < budget {
                 let mut c2 = calls.clone();
                 c2.remove(j);
                 let mut cand = events.clone();
-                cand[i] = Event::Build { node, slot, calls: c2.clone() };
+                cand[i] = Event::Build { node, slot, calls: c2.clone(), reuse };
                 if test(&nodes, &cand, &mut used) {
                     calls = c2;
                     events = cand;
